@@ -309,3 +309,14 @@ Theorem C01_bit_semantics_terminates :
   exists o outs, tsem_program fuel P args = Ok (o, outs) /\ length outs = szn P (fn_ret fd).
 Proof. exact tsem_program_terminates. Qed.
 Print Assumptions C01_bit_semantics_terminates.
+
+(* ------------------------------------------------------------------ from the real API's encoder
+   to the real API's decoder (Lang/LitEnc.v): for a program of the full fragment, argument values
+   with their canonical literals, and `args` the bits the model of Literal::as_bits produces for
+   them (a model tied to literal.rs on every run): the bits are canonical, Sem.v runs main on
+   exactly those values, and if it returns, decoding the bit-level result with the model of the
+   real decoder at the return type yields the literal of the value Sem.v computed, no panic. *)
+From GV Require Import Lang.LitEnc.
+Theorem C01_from_argument_literals_to_the_result_literal : ltac:(let T := type of lit_program_agree in exact T).
+Proof. exact lit_program_agree. Qed.
+Print Assumptions C01_from_argument_literals_to_the_result_literal.
